@@ -128,6 +128,7 @@ MAIN_TESTS = [
     'duration < rise_time + fall_time - eps',
     'flat_time is not None and duration is None',
     'rise_time is None and fall_time is None',
+    'rise_time <= 0 or fall_time <= 0 or flat_time < 0',
     'abs(amplitude2) > max_grad + eps',
     'abs(amplitude2) / rise_time > max_slew * (1 + eps)',
     'abs(amplitude2) / fall_time > max_slew * (1 + eps)',
